@@ -19,7 +19,9 @@ FAMILY = ["C01", "C04", "C06", "C10", "C12", "C18"]
 TIERS = {
     # (profile, traces, steps)
     "quick": [("mixed", 96, 45), ("failover", 48, 45), ("quorum", 24, 40), ("scalein", 48, 40)],
-    "thorough": [("mixed", 2400, 70), ("failover", 1200, 70), ("quorum", 400, 60), ("scalein", 600, 60)],
+    # sized so that the whole family finishes in well under an hour on 14 validation JVMs (a first sizing of 4 600 traces
+    # made single shards exceed the 2 GB heap of a validation JVM and the tier died with a tool error)
+    "thorough": [("mixed", 600, 70), ("failover", 320, 70), ("quorum", 120, 60), ("scalein", 200, 60)],
 }
 
 RULES = {
@@ -215,7 +217,8 @@ def run_family(tier):
     tlc_files, tlc_distinct = _gen_tlc_traces(tier, out_dir, sd)
     log("replayed %d TLC-generated behaviours (of %d distinct) in %.1fs" % (len(tlc_files), tlc_distinct, time.time() - t0))
     files = files + tlc_files
-    shards, index = make_shards(files, os.path.join(out_dir, "shards"), 12 if tier == "quick" else 14)
+    # shards of about the same size in both tiers (~18 traces each): memory per validation JVM stays bounded
+    shards, index = make_shards(files, os.path.join(out_dir, "shards"), 12 if tier == "quick" else max(14, len(files) // 16))
     verdicts = validate_shards("BrokerTrace.tla", "BrokerTrace.cfg", shards, jobs=12 if tier == "quick" else 14,
                                timeout=600 if tier == "quick" else 3400)
     viols = []
